@@ -24,6 +24,9 @@ func runC10(a args) error {
 	freqs := []float64{0, 0.3, 0.5, 0.9, 1}
 	for i := 0; i < a.n; i++ {
 		size := uint64(r.Intn(13)) // 0 = keep everything
+		if i%10 == 9 {             // sizes around 2^63 and the largest one ("keep everything" written as a number): nothing is ever discarded
+			size = []uint64{1 << 63, 1<<63 - 1, 1<<63 + 5, 1<<64 - 1}[(i/10)%4]
+		}
 		freq := freqs[r.Intn(len(freqs))]
 		n := 1 + r.Intn(40)
 		// payload sizes chosen so that the keys span an inline bucket, one leaf, several pages
@@ -37,6 +40,7 @@ func runC10(a args) error {
 		var stepsDesc [][]int
 		reopens := 0
 		rejected := 0
+		commitFaults := 0
 		deletedSeveral := false
 		prevLen := 0
 		for k := 1; k <= n; k++ {
@@ -48,6 +52,21 @@ func runC10(a args) error {
 					return fmt.Errorf("an update with a 40000-byte id was accepted")
 				}
 				rejected++
+			}
+			if k > 1 && r.Chance(0.08) {
+				// a publish whose transaction fails when it is committed (the file cannot be written at that instant): the
+				// deletions of its cleanup are rolled back with it, and it must leave no trace either
+				restore, err := breakWritesTemporarily(p)
+				if err != nil {
+					return err
+				}
+				err = t.Dispatch(&mercure.Update{Topics: []string{"t"}, Event: mercure.Event{ID: "unwritten", Data: strings.Repeat("x", pay)}})
+				restore()
+				if err == nil {
+					return fmt.Errorf("a publish whose commit could not be written was accepted")
+				}
+				rejected++
+				commitFaults++
 			}
 			u := &mercure.Update{Topics: []string{"t"}, Event: mercure.Event{ID: strconv.Itoa(k), Data: strings.Repeat("x", pay)}}
 			if err := t.Dispatch(u); err != nil {
@@ -87,7 +106,7 @@ func runC10(a args) error {
 			fk = 1
 		}
 		term := fmt.Sprintf("{| c10_size := %d; c10_freq := %d; c10_steps := %s |}", size, fk, ce.List(steps))
-		out.Add(term, map[string]any{"size": size, "frequency": freq, "publishes": n, "payload": pay, "reopens": reopens, "rejected_publishes": rejected, "retained_after_each": stepsDesc},
+		out.Add(term, map[string]any{"size": size, "frequency": freq, "publishes": n, "payload": pay, "reopens": reopens, "rejected_publishes": rejected, "of_which_failed_at_commit": commitFaults, "retained_after_each": stepsDesc},
 			deletedSeveral || (size > 0 && uint64(n) > size), fmt.Sprintf("freq:%v", freq), fmt.Sprintf("payload:%d", pay),
 			fmt.Sprintf("several-keys-in-one-cleanup:%v", deletedSeveral), fmt.Sprintf("reopens:%d", min(reopens, 3)), fmt.Sprintf("rejected:%d", min(rejected, 3)))
 	}
